@@ -829,7 +829,9 @@ func (n *Field) String() string {
 		s.WriteString(" ")
 	}
 	s.WriteString(n.Type.String())
-	if n.Tag != "" {
+	if strings.Contains(n.Tag, "`") {
+		s.WriteString(" " + strconv.Quote(n.Tag))
+	} else if n.Tag != "" {
 		s.WriteString(" `" + n.Tag + "`")
 	}
 	return s.String()
